@@ -130,6 +130,8 @@ func (_this *Context) BeginArrayAnyType(arrayType events.ArrayType) {
 		_this.beginArray(arrayType, &stringRule, dataType, _this.config.Rules.MaxArraySizeBytes, _this.ValidateContentsRID)
 	case events.ArrayTypeCustomText:
 		_this.beginArray(arrayType, &stringRule, dataType, _this.config.Rules.MaxArraySizeBytes, _this.ValidateContentsCustomText)
+	case events.ArrayTypeReferenceRemote:
+		_this.beginArray(arrayType, &stringRule, dataType, _this.config.Rules.MaxArraySizeBytes, _this.ValidateContentsRID)
 	default:
 		_this.beginArray(arrayType, &arrayRule, dataType, _this.config.Rules.MaxArraySizeBytes, _this.ValidateNothing)
 	}
@@ -256,7 +258,7 @@ func (_this *Context) ValidateFullArrayAnyType(arrayType events.ArrayType, eleme
 	case events.ArrayTypeString:
 		_this.ValidateLengthString(uint64(len(data)))
 		_this.ValidateContentsString(data)
-	case events.ArrayTypeResourceID:
+	case events.ArrayTypeResourceID, events.ArrayTypeReferenceRemote:
 		_this.ValidateLengthRID(uint64(len(data)))
 		_this.ValidateContentsRID(data)
 	case events.ArrayTypeCustomText:
@@ -273,7 +275,7 @@ func (_this *Context) ValidateFullArrayStringlike(arrayType events.ArrayType, da
 	case events.ArrayTypeString:
 		_this.ValidateLengthString(uint64(len(data)))
 		_this.ValidateContentsStringlike(data)
-	case events.ArrayTypeResourceID:
+	case events.ArrayTypeResourceID, events.ArrayTypeReferenceRemote:
 		_this.ValidateLengthRID(uint64(len(data)))
 		_this.ValidateContentsRIDString(data)
 	case events.ArrayTypeCustomText:
